@@ -31,6 +31,10 @@ def run_inproc(argv):
                 else:
                     err.write(str(code) + "\n")
                     rc = 1
+            except Exception:  # noqa: BLE001 - the interpreter would print a traceback and exit with status 1
+                import traceback
+                err.write(traceback.format_exc())
+                rc = 1
     finally:
         sys.argv = old
     return rc, out.getvalue(), err.getvalue()
